@@ -374,3 +374,179 @@ Proof.
     + intros w Hw. rewrite L1 by (rewrite Sa; exact Hw). rewrite (La w Hw). reflexivity.
     + apply Hrej; assumption.
 Qed.
+
+(* ---------- accessible / co-accessible states ---------- *)
+Lemma NoDup_map_filter {A B} (f : A -> B) (p : A -> bool) l : NoDup (map f l) -> NoDup (map f (filter p l)).
+Proof.
+  induction l as [|x r IH]; simpl; intro H; [constructor|]. inversion H as [|y l' Hx Hr]; subst.
+  destruct (p x); simpl; [|apply IH; exact Hr]. constructor; [|apply IH; exact Hr].
+  intro Hin. apply Hx. apply in_map_iff in Hin. destruct Hin as [z [E Hz]]. apply filter_In in Hz.
+  apply in_map_iff. exists z. tauto.
+Qed.
+
+Section Access.
+  Variable m : dfa.
+  Hypothesis Hv : valid_dfa m = true.
+
+  Definition accessible (q : nat) : Prop := exists w, dfa_run m (Some (d_init m)) w = Some q.
+  Definition coacc (q : nat) : Prop := exists w, ofinal m (dfa_run m (Some q) w) = true.
+  Definition preds (q : nat) : list nat := filter (fun p => memb q (row_targets m p)) (d_states m).
+
+  Lemma accessible_state q : accessible q -> In q (d_states m).
+  Proof.
+    intros [w Hw]. pose proof (dfa_run_ok m Hv w _ (init_ok m Hv)) as H. rewrite Hw in H. exact H.
+  Qed.
+
+  Lemma accessible_step q a t : accessible q -> d_delta m q a = Some t -> accessible t.
+  Proof. intros [w Hw] Hd. exists (w ++ [a]). rewrite dfa_run_app, Hw. simpl. exact Hd. Qed.
+
+  Lemma coacc_step q a t : d_delta m q a = Some t -> coacc t -> coacc q.
+  Proof. intros Hd [w Hw]. exists (a :: w). simpl. rewrite Hd. exact Hw. Qed.
+
+  Lemma reach_states_ok :
+    exists acc, reach_states m = Ok acc /\ NoDup acc /\ forall q, In q acc <-> accessible q.
+  Proof.
+    unfold reach_states.
+    destruct (closure Nat.eqb _ (S (length (d_states m))) [d_init m]) as [qs|] eqn:E; simpl.
+    - exists qs. split; [reflexivity|]. split; [eapply closure_NoDup; [exact eqb_nat_ok|exact E]|].
+      intro q. unfold accessible. rewrite <- (reach_run m Hv). split.
+      + apply (closure_sound _ _ eqb_nat_ok _ _ _ _ E).
+      + apply (closure_complete _ _ eqb_nat_ok _ _ _ _ E).
+    - exfalso. revert E. apply (closure_fuel _ _ eqb_nat_ok _ (d_states m)).
+      + intros x y _ Hy. apply (row_succ m Hv) in Hy. destruct Hy as [c Hc].
+        apply (delta_in_states m Hv) in Hc. tauto.
+      + intros x [<-|[]]. destruct (valid_dfa_parts m Hv) as (_ & _ & _ & _ & _ & H & _). exact H.
+      + lia.
+  Qed.
+
+  Lemma preds_char q p : In p (preds q) <-> In p (d_states m) /\ exists a, d_delta m p a = Some q.
+  Proof.
+    unfold preds, row_targets. rewrite filter_In, memb_In, (row_succ m Hv). tauto.
+  Qed.
+
+  Lemma coreach_char q : reach preds (d_finals m) q <-> In q (d_states m) /\ coacc q.
+  Proof.
+    split.
+    - intro H. induction H as [x Hx|x y Hr [_ IH] Hy].
+      + split; [destruct (valid_dfa_parts m Hv) as (_ & _ & _ & _ & _ & _ & H); apply H; exact Hx|].
+        exists []. simpl. apply memb_In. exact Hx.
+      + apply preds_char in Hy. destruct Hy as [Hy [a Ha]]. split; [exact Hy|]. eapply coacc_step; eassumption.
+    - intros [Hq [w Hw]]. revert q Hq Hw. induction w as [|a w IH]; intros q Hq Hw; simpl in Hw.
+      + apply reach_init. apply memb_In. exact Hw.
+      + destruct (d_delta m q a) as [t|] eqn:E; [|rewrite dfa_run_None in Hw; discriminate].
+        eapply reach_step; [apply (IH t); [apply (delta_in_states m Hv) in E; tauto|exact Hw]|].
+        apply preds_char. split; [exact Hq|]. exists a. exact E.
+  Qed.
+
+  Lemma coreach_states_ok :
+    exists co, coreach_states m = Ok co /\ NoDup co /\ forall q, In q co <-> In q (d_states m) /\ coacc q.
+  Proof.
+    unfold coreach_states. fold preds.
+    destruct (closure Nat.eqb preds (S (length (d_states m))) (d_finals m)) as [qs|] eqn:E; simpl.
+    - exists qs. split; [reflexivity|]. split; [eapply closure_NoDup; [exact eqb_nat_ok|exact E]|].
+      intro q. rewrite <- coreach_char. split.
+      + apply (closure_sound _ _ eqb_nat_ok _ _ _ _ E).
+      + apply (closure_complete _ _ eqb_nat_ok _ _ _ _ E).
+    - exfalso. revert E. apply (closure_fuel _ _ eqb_nat_ok _ (d_states m)).
+      + intros x y _ Hy. apply preds_char in Hy. tauto.
+      + destruct (valid_dfa_parts m Hv) as (_ & _ & _ & _ & _ & _ & H). exact H.
+      + lia.
+  Qed.
+End Access.
+
+(* ---------- to_partial ---------- *)
+Section ToPartial.
+  Variable m : dfa.
+  Hypothesis Hv : valid_dfa m = true.
+  Variables acc co : list nat.
+  Hypothesis Hacc : forall q, In q acc <-> accessible m q.
+  Hypothesis Hco : forall q, In q co <-> In q (d_states m) /\ coacc m q.
+
+  Definition pkeep : list nat := set_add (d_init m) (set_of (filter (fun q => memb q co) acc)).
+  Definition partialR : dfa :=
+    mkdfa pkeep (d_syms m)
+          (map (fun r => (fst r, filter (fun ct => memb (snd ct) co) (snd r)))
+               (filter (fun r => memb (fst r) pkeep) (d_trans m)))
+          (d_init m) (filter (fun q => memb q pkeep) (d_finals m)) true.
+
+  Lemma pkeep_In q : In q pkeep <-> q = d_init m \/ (In q acc /\ In q co).
+  Proof. unfold pkeep. rewrite set_add_In, set_of_In, filter_In, memb_In. tauto. Qed.
+
+  Lemma init_accessible : accessible m (d_init m).
+  Proof. exists []. reflexivity. Qed.
+
+  Lemma pkeep_accessible q : In q pkeep -> accessible m q.
+  Proof. intro H. apply pkeep_In in H. destruct H as [->|[H _]]; [apply init_accessible|apply Hacc; exact H]. Qed.
+
+  Lemma pkeep_state q : In q pkeep -> In q (d_states m).
+  Proof. intro H. apply (accessible_state m Hv). apply pkeep_accessible. exact H. Qed.
+
+  Lemma partial_row q : In q pkeep ->
+    d_row partialR q = option_map (filter (fun ct => memb (snd ct) co)) (d_row m q).
+  Proof.
+    intro Hq. unfold d_row, partialR. simpl. rewrite assoc_map_snd.
+    rewrite (assoc_filter_key (fun k => memb k pkeep)). apply memb_In in Hq. rewrite Hq. reflexivity.
+  Qed.
+
+  Lemma partial_delta q a : In q pkeep ->
+    d_delta partialR q a =
+    match d_delta m q a with Some t => if memb t co then Some t else None | None => None end.
+  Proof.
+    intro Hq. unfold d_delta. rewrite (partial_row q Hq).
+    destruct (state_has_row m Hv q (pkeep_state q Hq)) as [row Hr]. rewrite Hr. simpl.
+    apply (assoc_filter_val (fun t => memb t co)).
+    destruct (row_ok_elim _ _ (row_props m Hv _ _ Hr)) as (H & _). exact H.
+  Qed.
+
+  Lemma partial_valid : valid_dfa partialR = true.
+  Proof.
+    destruct (valid_dfa_parts m Hv) as (H1 & H2 & H3 & H4 & H5 & H6 & H7).
+    apply valid_dfa_intro; simpl.
+    - apply ssorted_NoDup. apply set_add_sorted. apply set_of_sorted.
+    - exact H2.
+    - rewrite map_fst_map_snd. apply NoDup_map_filter. exact H3.
+    - intros q Hq. rewrite map_fst_map_snd. pose proof (H4 q (pkeep_state q Hq)) as Hk.
+      apply in_map_iff in Hk. destruct Hk as [[q' row] [E Hin]]. simpl in E. subst q'.
+      apply in_map_iff. exists (q, row). split; [reflexivity|]. apply filter_In. split; [exact Hin|].
+      simpl. apply memb_In. exact Hq.
+    - intros q row' Hin. apply in_map_iff in Hin. destruct Hin as [[q0 row] [E Hin]]. simpl in E.
+      inversion E; subst. clear E. apply filter_In in Hin. destruct Hin as [Hin Hq]. simpl in Hq. apply memb_In in Hq.
+      destruct (row_ok_elim _ _ (H5 _ _ Hin)) as (Hnd & Hent & _).
+      apply row_ok_intro; simpl.
+      + apply NoDup_map_filter. exact Hnd.
+      + intros a t Hat. apply filter_In in Hat. destruct Hat as [Hat Ht]. simpl in Ht. apply memb_In in Ht.
+        split; [apply (Hent _ _ Hat)|]. apply pkeep_In. right. split; [|exact Ht].
+        apply Hacc. apply (accessible_step m q a t); [apply pkeep_accessible; exact Hq|].
+        unfold d_delta, d_row. rewrite (assoc_NoDup q row (d_trans m) H3 Hin). apply assoc_NoDup; assumption.
+      + left. reflexivity.
+    - apply pkeep_In. left. reflexivity.
+    - intros q Hq. apply filter_In in Hq. destruct Hq as [_ Hq]. apply memb_In. exact Hq.
+  Qed.
+
+  Lemma partial_acc_from w : forall q, In q pkeep ->
+    ofinal partialR (dfa_run partialR (Some q) w) = ofinal m (dfa_run m (Some q) w).
+  Proof.
+    induction w as [|a w IH]; intros q Hq; simpl.
+    - rewrite memb_filter. apply memb_In in Hq. rewrite Hq. apply andb_true_r.
+    - rewrite (partial_delta q a Hq). destruct (d_delta m q a) as [t|] eqn:E; [|rewrite !dfa_run_None; reflexivity].
+      destruct (memb t co) eqn:Et.
+      + apply IH. apply pkeep_In. right. split; [|apply memb_In; exact Et].
+        apply Hacc. eapply accessible_step; [apply pkeep_accessible; exact Hq|exact E].
+      + rewrite dfa_run_None. simpl. symmetry.
+        destruct (ofinal m (dfa_run m (Some t) w)) eqn:Ef; [|reflexivity]. exfalso.
+        apply memb_false in Et. apply Et. apply Hco. split; [apply (delta_in_states m Hv) in E; tauto|].
+        exists w. exact Ef.
+  Qed.
+End ToPartial.
+
+Theorem to_partial_spec m : valid_dfa m = true ->
+  exists R, to_partial_m m = Ok R /\ valid_dfa R = true /\ d_syms R = d_syms m /\
+            forall w, dfa_acc R w = dfa_acc m w.
+Proof.
+  intro Hv. destruct (reach_states_ok m Hv) as [acc [Ea [_ Hacc]]].
+  destruct (coreach_states_ok m Hv) as [co [Ec [_ Hco]]].
+  exists (partialR m acc co). split; [unfold to_partial_m; rewrite Ea, Ec; reflexivity|].
+  split; [apply partial_valid; assumption|]. split; [reflexivity|].
+  intro w. unfold dfa_acc, dfa_acc_from. apply (partial_acc_from m Hv acc co Hacc Hco w (d_init m)).
+  apply pkeep_In. left. reflexivity.
+Qed.
